@@ -48,6 +48,8 @@ type Actor struct {
 	Results []string
 	// M-view: index of the newest version this handle is known to have held
 	lastVersion int
+	// version created by this handle's own last successful Add: its view can never be older
+	minVersion int
 	CallsDone   int
 }
 
@@ -95,6 +97,7 @@ func (a *Actor) run(p *vos.Proc, c Call) {
 				a.St = nil
 			} else {
 				a.lastVersion = 0
+				a.minVersion = 0
 			}
 		}
 	case "add", "addbad":
@@ -167,6 +170,9 @@ func (a *Actor) run(p *vos.Proc, c Call) {
 		}
 	}
 	a.judge(p, c, ci, err)
+	if err == nil && ci.Applied && (c.Kind == "add" || c.Kind == "addmulti") {
+		a.minVersion = ci.VersionIdx
+	}
 	w.End(p, ci)
 	// M-view: after every completed call of a handle its view must be one committed version
 	if a.St != nil && c.Kind != "read" && c.Kind != "fresh" {
@@ -337,6 +343,10 @@ func (a *Actor) checkView(p *vos.Proc, when string) {
 	v := w.Versions[found]
 	if v.Readable && v.Dump != dump {
 		w.violate([]string{"C10"}, "view-differs-from-its-version", "p%d %s: handle at version %d (%v) reads differently from a fresh reader of that version: %s", p.ID, when, found, names, gen.DiffLines(v.Dump, dump))
+		return
+	}
+	if found < a.minVersion {
+		w.violate([]string{"C10", "C04"}, "view-older-than-own-commit", "p%d %s: the handle's Add was committed as version %d but its view is still version %d (%v): it does not see its own write", p.ID, when, a.minVersion, found, names)
 		return
 	}
 	if found < a.lastVersion {
